@@ -84,7 +84,7 @@ func seedOverlay(patch string) (map[string][]byte, error) {
 
 // runBenignTest runs checker f on each behaviour-preserving refactoring kept under /verif/benign: none may be reported.
 func runBenignTest(vdir, id, tier string, f checker) []selfResult {
-	dirs, _ := filepath.Glob(filepath.Join(vdir, "benign", "R*-*"))
+	dirs, _ := filepath.Glob(filepath.Join(vdir, "benign", "[RF]*-*"))
 	sort.Strings(dirs)
 	return runVariants(vdir, id, dirs, f)
 }
